@@ -186,11 +186,14 @@ fn gen_free_text(t: &mut Tape) -> String {
 
 fn gen_file_name(t: &mut Tape, bg: bool) -> String {
     let mut s = gen_free_text(t).replace('\\', "");
+    if bg {
+        s = s.replace(',', "");
+    }
+    // (after the comma removal: "/,/" must not turn into a comment marker)
     while s.contains("//") {
         s = s.replace("//", "/");
     }
     if bg {
-        s = s.replace(',', "");
         // no quotes and no whitespace at the edges (repeat until stable)
         loop {
             let t2 = s.trim().trim_matches('"').to_string();
